@@ -167,6 +167,44 @@ func c16Eval(c *ctx, cs c16Case) {
 			return
 		}
 		c16Msg(c, cs, m)
+	case "derived":
+		// observe, derive, observe again: the observers of a derived message must agree with each other
+		// whatever was asked of the message it was derived from
+		var m *ast.DataMessage
+		if o := real.Try(func() { m = real.BuildMsg(cs.Msg) }); o.Panicked {
+			c.Violation("C16/message-refused-valid", o.String(), cs)
+			return
+		}
+		c16Msg(c, cs, m)
+		r := rng.New(rng.HashStr(ref.PrintMsg(cs.Msg)))
+		g := gen.New(r, gen.Profile{})
+		for step := 0; step < 3; step++ {
+			var next *ast.DataMessage
+			o := real.Try(func() {
+				switch r.Intn(3) {
+				case 0:
+					sub := map[string]interface{}{}
+					if cs.Msg.Item != nil {
+						for k, v := range fullAssignment(g, cs.Msg.Item) {
+							if r.Bool() {
+								sub[k] = rawOf(v)
+							}
+						}
+					}
+					next = m.FillVariables(sub)
+				case 1:
+					next = m.SetWaitBit(false)
+				default:
+					next = m.SetSessionIDAndSystemBytes(r.Intn(65536), r.Bytes(4))
+				}
+			})
+			if o.Panicked || next == nil {
+				continue
+			}
+			c16Msg(c, cs, next)
+			c16Msg(c, cs, m) // and the original still agrees with itself
+			m = next
+		}
 	case "parsed":
 		msgs, errs, _, o := smlParse(cs.Text)
 		if o.Panicked || len(errs) > 0 {
@@ -180,7 +218,7 @@ func c16Eval(c *ctx, cs c16Case) {
 }
 
 func runC16(c *ctx) {
-	c.Rule = "three observers of the same object must agree: Variables() equals the sequence of variable tokens read from String() by the harness's own scanner (ellipses by position), no name twice, len(ToBytes())>0 iff Variables() is empty (messages: and wait bit decided and session set), Size() equals the number of printed elements (-1 for an unfilled ASCII variable), every printed [n] equals the elements printed inside. Objects: generated trees with variables at every position and ellipses, results of ellipsis expansion, messages in all completeness states, parser-produced messages. non-trivial = at least 2 variables in at least 2 different nodes; distinct by printed form"
+	c.Rule = "three observers of the same object must agree: Variables() equals the sequence of variable tokens read from String() by the harness's own scanner (ellipses by position), no name twice, len(ToBytes())>0 iff Variables() is empty (messages: and wait bit decided and session set), Size() equals the number of printed elements (-1 for an unfilled ASCII variable), every printed [n] equals the elements printed inside. Objects: generated trees with variables at every position and ellipses, results of ellipsis expansion, messages in all completeness states, messages derived by the producers from messages that were already observed, parser-produced messages. non-trivial = at least 2 variables in at least 2 different nodes; distinct by printed form"
 	c.Assume = []string{"variable base names avoid the words T and F (a variable called T in a BOOLEAN item prints like the value T)", "the scanner in internal/ref/scan.go reads the printed form"}
 	n := c.pick(200000, 1500000)
 	c.parallel(n, func(i int, r *rng.R) {
@@ -212,13 +250,15 @@ func runC16(c *ctx) {
 			m := g.Msg(item, false)
 			if i%8 == 3 {
 				c16Eval(c, c16Case{Source: "message", Msg: m})
+			} else if i%8 == 7 && len(it.Vars()) > 0 && !p.Ellipsis {
+				c16Eval(c, c16Case{Source: "derived", Msg: m})
 			} else {
 				m.Session = -1
 				c16Eval(c, c16Case{Source: "parsed", Text: ref.PrintMsg(m)})
 			}
 		}
 	})
-	c.Required = []string{"object/direct", "object/expanded", "object/message", "object/parsed", "variable-free", "with-variables"}
+	c.Required = []string{"object/direct", "object/expanded", "object/message", "object/derived", "object/parsed", "variable-free", "with-variables"}
 }
 
 func replayC16(c *ctx, raw json.RawMessage) {
